@@ -17,6 +17,8 @@ pub struct Violation {
 pub struct Known { pub property: String, pub sig: String, pub text: String }
 
 pub fn verif_dir() -> String { std::env::var("VERIF_DIR").unwrap_or_else(|_| "/verif".to_string()) }
+/// where evidence and replay files go (differs from verif_dir() only when the checks run against a copy of the repository)
+pub fn out_dir() -> String { std::env::var("VERIF_OUT_DIR").unwrap_or_else(|_| verif_dir()) }
 
 pub fn load_known() -> Vec<Known> {
     let path = format!("{}/KNOWN_FINDINGS.txt", verif_dir());
@@ -68,7 +70,7 @@ impl Reporter {
 
     /// Prints the verdict lines, writes replay files and the evidence file; returns the exit code.
     pub fn finish(&self, level: &str, mut coverage: Value, assumptions: Vec<String>) -> i32 {
-        let dir = verif_dir();
+        let dir = out_dir();
         let viol = self.violations.lock().unwrap();
         let mut new_sigs: BTreeMap<String, &Violation> = BTreeMap::new();
         let mut known_hit: BTreeMap<String, (String, usize)> = BTreeMap::new();
